@@ -15,3 +15,4 @@ class Family:
     cond_timeout: Optional[float] = None                # per-condition CPU budget override (seconds)
     weight: int = 1
     types: dict = field(default_factory=dict)           # param -> annotation (default "int")
+    env: dict = field(default_factory=dict)             # extra environment for this family's CrossHair processes
